@@ -1,0 +1,45 @@
+// SPDX-FileCopyrightText: 2026 The Pion community <https://pion.ly>
+// SPDX-License-Identifier: MIT
+
+//go:build verif && verif_ops && !js
+
+package webrtc
+
+import "sync/atomic"
+
+// VerifOperations exposes the unexported operations queue to the
+// verification harness (property C05).
+type VerifOperations struct {
+	o    *operations
+	Flag *atomic.Bool
+}
+
+// VerifNewOperations builds a queue whose negotiation-needed callback is cb.
+func VerifNewOperations(cb func()) *VerifOperations {
+	flag := &atomic.Bool{}
+	if cb == nil {
+		cb = func() {}
+	}
+
+	return &VerifOperations{o: newOperations(flag, cb), Flag: flag}
+}
+
+// Enqueue calls operations.Enqueue.
+func (v *VerifOperations) Enqueue(op func()) { v.o.Enqueue(op) }
+
+// Done calls operations.Done.
+func (v *VerifOperations) Done() { v.o.Done() }
+
+// GracefulClose calls operations.GracefulClose.
+func (v *VerifOperations) GracefulClose() { v.o.GracefulClose() }
+
+// IsEmpty calls operations.IsEmpty.
+func (v *VerifOperations) IsEmpty() bool { return v.o.IsEmpty() }
+
+// Snapshot reads (queue length, worker goroutine exists, closed) under the lock.
+func (v *VerifOperations) Snapshot() (qlen int, busy bool, closed bool) {
+	v.o.mu.Lock()
+	defer v.o.mu.Unlock()
+
+	return v.o.ops.Len(), v.o.busyCh != nil, v.o.isClosed
+}
